@@ -167,11 +167,11 @@ class NameOfCastElementsOpcode(BiOpcode):
         
         if optype == 1:
             op = UnaryStringOperation(UnaryOperationNames.NAME, index)
-            op.of = Menu(param2.name, index)
+            op.of = Menu(param2, index)
         
         elif optype == 2:
             op = UnaryStringOperation(UnaryOperationNames.NUMBER, index)
-            op.of = MenuitemsAccessorOperation(Menu(param2.name, index), index) 
+            op.of = MenuitemsAccessorOperation(Menu(param2, index), index) 
         
         else:
             raise Exception(vsprintf("Unknown op type: %s", optype))           
@@ -188,8 +188,8 @@ class MenuitemPropertiesOpcode(BiOpcode):
     def process(self, context: Context, stack: List[Node], \
                 fn: FunctionDef, index: int):
         property_index = int(cast(ConstantValue, stack.pop()).name)
-        menu_id = cast(ConstantValue, stack.pop()).name
-        menu_item_id = cast(ConstantValue, stack.pop()).name
+        menu_id = stack.pop()
+        menu_item_id = stack.pop()
         
         mia = MenuitemAccessorOperation(Menu(menu_id, index),
                                         MenuItem(menu_item_id, index),
@@ -213,8 +213,8 @@ class AssignMenuitemPropertiesOpcode(BiOpcode):
         
         property_index = int(cast(ConstantValue, stack.pop()).name)
         value = stack.pop()
-        menu_id = cast(ConstantValue, stack.pop()).name
-        menu_item_id = cast(ConstantValue, stack.pop()).name
+        menu_id = stack.pop()
+        menu_item_id = stack.pop()
         
         mia = MenuitemAccessorOperation(Menu(menu_id, index),
                                         MenuItem(menu_item_id, index),
@@ -239,7 +239,7 @@ class SoundPropertiesOpcode(BiOpcode):
     def process(self, context: Context, stack: List[Node], \
                 fn: FunctionDef, index: int):
         property_index = int(cast(ConstantValue, stack.pop()).name)
-        channel_id = cast(ConstantValue, stack.pop()).name
+        channel_id = stack.pop()
         sound_channel = SoundChannel(channel_id, index)
         prop = SOUND_PROPERTIES[property_index]
         op = PropertyAccessorOperation(sound_channel, prop, index)
@@ -257,7 +257,7 @@ class AssignSoundPropertiesOpcode(BiOpcode):
                 fn: FunctionDef, index: int):
         property_index = int(cast(ConstantValue, stack.pop()).name)
         value = stack.pop()
-        channel_id = cast(ConstantValue, stack.pop()).name
+        channel_id = stack.pop()
         
         sound_channel = SoundChannel(channel_id, index)
         prop = SOUND_PROPERTIES[property_index]
@@ -279,7 +279,7 @@ class SpritePropertiesOpcode(BiOpcode):
     def process(self, context: Context, stack: List[Node], \
                 fn: FunctionDef, index: int):
         property_index = int(cast(ConstantValue, stack.pop()).name)
-        sprite_id = cast(ConstantValue, stack.pop()).name
+        sprite_id = stack.pop()
         sprite = Sprite(sprite_id, index)
         prop = SPRITE_PROPERTIES[property_index]
         op = PropertyAccessorOperation(sprite, prop, index)
@@ -297,7 +297,7 @@ class AssignSpritePropertiesOpcode(BiOpcode):
                 fn: FunctionDef, index: int):
         property_index = int(cast(ConstantValue, stack.pop()).name)
         value = stack.pop()
-        sprite_id = cast(ConstantValue, stack.pop()).name
+        sprite_id = stack.pop()
         
         sprite = Sprite(sprite_id, index)
         prop = SPRITE_PROPERTIES[property_index]
@@ -378,7 +378,7 @@ class CastPropertiesOpcode(BiOpcode):
         p_index: ConstantValue = cast(ConstantValue, stack.pop())
         property_index = int(p_index.name)
         cast_id: ConstantValue = cast(ConstantValue, stack.pop())
-        cast_member = Cast(cast_id.name, index)
+        cast_member = Cast(cast_id, index)
         prop = CAST_PROPERTIES[property_index]
         op = PropertyAccessorOperation(cast_member, prop, index)
         stack.append(op)
@@ -398,7 +398,7 @@ class AssignCastPropertiesOpcode(BiOpcode):
         value = stack.pop()
         cast_id: ConstantValue = cast(ConstantValue, stack.pop())
         
-        cast_member = Cast(cast_id.name, index)
+        cast_member = Cast(cast_id, index)
         prop = CAST_PROPERTIES[property_index]
         accessor = PropertyAccessorOperation(cast_member, prop, index)
         
@@ -437,7 +437,7 @@ class AssignFieldPropertiesOpcode(BiOpcode):
                 fn: FunctionDef, index: int):
         property_index = int(cast(ConstantValue, stack.pop()).name)
         value = stack.pop()
-        cast_id = cast(ConstantValue, stack.pop()).name
+        cast_id = stack.pop()
         cast_node = Cast(cast_id, index)
         prop = CAST_PROPERTIES[property_index]
         accessor = PropertyAccessorOperation(cast_node, prop, index)
@@ -457,7 +457,7 @@ class VideoPropertiesOpcode(BiOpcode):
     def process(self, context: Context, stack: List[Node], \
                 fn: FunctionDef, index: int):
         property_index = int(cast(ConstantValue, stack.pop()).name)
-        cast_id = cast(ConstantValue, stack.pop()).name
+        cast_id = stack.pop()
         cast_node = Cast(cast_id, index)
         prop = VIDEO_PROPERTIES[property_index]
         op = PropertyAccessorOperation(cast_node, prop, index)
@@ -475,7 +475,7 @@ class AssignVideoPropertiesOpcode(BiOpcode):
                 fn: FunctionDef, index: int):
         property_index = int(cast(ConstantValue, stack.pop()).name)
         value = stack.pop()
-        cast_id = cast(ConstantValue, stack.pop()).name
+        cast_id = stack.pop()
         cast_node = Cast(cast_id, index)
         prop = VIDEO_PROPERTIES[property_index]
         accessor = PropertyAccessorOperation(cast_node, prop, index)
